@@ -1,4 +1,144 @@
 import OsloModel.Proto
+import OsloModel.Time
+open Oslo Oslo.Time Oslo.Proto
 
--- stub: replaced by the real driver of this property group
-def main : IO Unit := Oslo.Proto.serve (fun _ => "bad-request")
+/-
+Requests (TAB-separated fields):
+  norm   <dt>                                   -> ok:<dt> | err:<Name>
+  secs   <num>/<den>                            -> ok:<us> | err:<Name>
+  run    <init: N | int>  <op;op;…  | ->        -> <out;out;…> TAB <state: N | int>
+  marshall      <fields> <tz>                   -> <fields> TAB <tzentry>
+  marshall_now  <state>  <fields of the override instant (the calendar, supplied by the caller)>
+                                                -> real | <fields> TAB <tzentry>
+  unmarshall    <fields> <tzentry> <lookup: ok | ZoneInfoNotFoundError | ValueError>
+                                                -> ok TAB <fields> TAB <tz> | err:<Name>
+<dt>      = n:<loc> | a:<loc>:<off>         (microseconds)
+<secs>    = <num>/<den>
+<op>      = set <t> | advd <d> | advs <secs> | clear | now <0|1> | ts <0|1>
+          | older <dt> <secs> | newer <dt> <secs> | soon <dt> <secs>
+<fields>  = year,month,day,hour,minute,second,microsecond
+<tz>      = naive | none | name:<hex>       <tzentry> = absent | none | name:<hex>
+-/
+
+def errName : Err → String
+  | .overflow => "OverflowError" | .assertion => "AssertionError" | .typeError => "TypeError"
+  | .valueError => "ValueError" | .zoneNotFound => "ZoneInfoNotFoundError"
+
+def parseDT (s : String) : Option DT :=
+  match s.splitOn ":" with
+  | ["n", l] => (l.toInt?).map .naive
+  | ["a", l, o] => do let l ← l.toInt?; let o ← o.toInt?; pure (.aware l o)
+  | _ => none
+
+def showDT : DT → String
+  | .naive l => s!"n:{l}"
+  | .aware l o => s!"a:{l}:{o}"
+
+def parseSecs (s : String) : Option Secs :=
+  match s.splitOn "/" with
+  | [n, d] => do
+    let n ← n.toInt?
+    let d ← d.toNat?
+    if h : 0 < d then pure ⟨n, d, h⟩ else none
+  | _ => none
+
+def parseFlag (s : String) : Option Bool :=
+  if s = "0" then some false else if s = "1" then some true else none
+
+def parseOp (s : String) : Option Op :=
+  match s.splitOn " " with
+  | ["set", t] => (t.toInt?).map .set
+  | ["advd", d] => (d.toInt?).map .advDelta
+  | ["advs", q] => (parseSecs q).map .advSeconds
+  | ["clear"] => some .clear
+  | ["now", f] => (parseFlag f).map .utcnow
+  | ["ts", f] => (parseFlag f).map .utcnowTs
+  | ["older", d, q] => do let d ← parseDT d; let q ← parseSecs q; pure (.older d q)
+  | ["newer", d, q] => do let d ← parseDT d; let q ← parseSecs q; pure (.newer d q)
+  | ["soon", d, q] => do let d ← parseDT d; let q ← parseSecs q; pure (.soon d q)
+  | _ => none
+
+def showOut : Out → String
+  | .none => "none"
+  | .instant t => s!"dt:{t}"
+  | .tsInt n => s!"int:{n}"
+  | .tsMicro n => s!"us:{n}"
+  | .bool b => if b then "bool:1" else "bool:0"
+  | .err e => errName e
+  | .real => "real"
+
+def parseOps (s : String) : Option (List Op) :=
+  if s = "-" then some [] else (s.splitOn ";").mapM parseOp
+
+def parseFields (s : String) : Option Fields :=
+  match (s.splitOn ",").mapM String.toInt? with
+  | some [y, mo, d, h, mi, sec, us] => some ⟨y, mo, d, h, mi, sec, us⟩
+  | _ => none
+
+def showFields (f : Fields) : String :=
+  s!"{f.year},{f.month},{f.day},{f.hour},{f.minute},{f.second},{f.microsecond}"
+
+/-- `absentWord` is "naive" for a datetime's tz, "absent" for a dict entry -/
+def parseTz (absentWord : String) (s : String) : Option (Option (Option (List Char))) :=
+  if s = absentWord then some none
+  else if s = "none" then some (some none)
+  else match s.splitOn ":" with
+    | ["name", h] => (unhexChars h).map (fun n => some (some n))
+    | _ => none
+
+def showTz (absentWord : String) : Option (Option (List Char)) → String
+  | none => absentWord
+  | some none => "none"
+  | some (some n) => "name:" ++ hexChars n
+
+def parseLookup (s : String) : Option (Option Err) :=
+  if s = "ok" then some none
+  else if s = "ZoneInfoNotFoundError" then some (some .zoneNotFound)
+  else if s = "ValueError" then some (some .valueError)
+  else none
+
+def showMarshalled (m : Marshalled) : String :=
+  showFields m.f ++ "\t" ++ showTz "absent" m.tzname
+
+def handle : List String → String
+  | ["norm", d] =>
+    match parseDT d with
+    | some d =>
+      match normalizeTime d with
+      | .ok r => "ok:" ++ showDT r
+      | .error e => "err:" ++ errName e
+    | none => "bad-request"
+  | ["secs", q] =>
+    match parseSecs q with
+    | some q =>
+      match usOfSeconds q with
+      | .ok r => s!"ok:{r}"
+      | .error e => "err:" ++ errName e
+    | none => "bad-request"
+  | ["run", st, ops] =>
+    match optInt st, parseOps ops with
+    | some st, some ops =>
+      let (st', outs) := run st ops
+      String.intercalate ";" (outs.map showOut) ++ "\t" ++ showOptInt st'
+    | _, _ => "bad-request"
+  | ["marshall", f, tz] =>
+    match parseFields f, parseTz "naive" tz with
+    | some f, some tz => showMarshalled (marshall ⟨f, tz⟩)
+    | _, _ => "bad-request"
+  | ["marshall_now", st, f] =>
+    match optInt st, parseFields f with
+    | some st, some f =>
+      match marshallNow (fun _ => f) st none with
+      | some m => showMarshalled m
+      | none => "real"
+    | _, _ => "bad-request"
+  | ["unmarshall", f, tz, lk] =>
+    match parseFields f, parseTz "absent" tz, parseLookup lk with
+    | some f, some tz, some lk =>
+      match unmarshall (fun _ => lk) ⟨f, tz⟩ with
+      | .ok s => "ok\t" ++ showFields s.f ++ "\t" ++ showTz "naive" s.tz
+      | .error e => "err:" ++ errName e
+    | _, _, _ => "bad-request"
+  | _ => "bad-request"
+
+def main : IO Unit := serve handle
